@@ -857,6 +857,10 @@ func (f *Frame) divisible(x Poly, d int64) bool {
 					if f.multipleOf(parent, d) {
 						ok = true
 					}
+					// the chunked slice is a parameter: its length is a multiple of d at every call site
+					if pp, isParam := ai.ChunkOf.(*ssa.Parameter); isParam && !ok && f.paramLenMultipleOf(pp, d) {
+						ok = true
+					}
 				}
 			}
 		}
@@ -1200,4 +1204,33 @@ func (f *Frame) chunkParam(p *ssa.Parameter) (int64, bool) {
 		size = k
 	}
 	return size, true
+}
+
+// paramLenMultipleOf: p is a slice parameter of a declared function and at every call site the length of the
+// argument is provably a multiple of d.
+func (f *Frame) paramLenMultipleOf(p *ssa.Parameter, d int64) bool {
+	fn := p.Parent()
+	if fn == nil || fn.Parent() != nil || f.S.P == nil {
+		return false
+	}
+	idx := -1
+	for i, q := range fn.Params {
+		if q == p {
+			idx = i
+		}
+	}
+	callers := f.S.P.CallersOf(fn)
+	if idx < 0 || len(callers) == 0 {
+		return false
+	}
+	for _, cs := range callers {
+		if cs.Common().IsInvoke() || idx >= len(cs.Common().Args) {
+			return false
+		}
+		cf := f.S.NewFrame(cs.Fn)
+		if !cf.multipleOf(cf.EvalLen(cs.Common().Args[idx]), d) {
+			return false
+		}
+	}
+	return true
 }
